@@ -317,6 +317,18 @@ def controlling_tests(c, node):
                     out.append((p.get("e"), "pat:" + "|".join(fb.last_seg(v) for v in fb.pat_variants(arm["pat"]))))
         elif k == "let" and p.get("els") is not None and child is p.get("els"):
             out.append((p.get("init"), "pat:!" + "|".join(fb.last_seg(v) for v in fb.pat_variants(p["pat"]))))
+        elif k == "block":
+            # what follows an early exit: `if let Some(x) = v { return .. }  <node>` is reached only when v is not Some; `if c { return }  <node>` only when !c
+            seq = list(p.get("stmts", [])) + ([p["e"]] if p.get("e") is not None else [])
+            for s_ in seq:
+                if s_ is child:
+                    break
+                if s_.get("k") == "if" and _diverges(s_.get("t")) and (s_.get("e") is None or not _diverges(s_.get("e"))):
+                    cond = s_["c"]
+                    if cond.get("k") == "letx":
+                        out.append((cond.get("init"), "pat:!" + "|".join(fb.last_seg(v) for v in fb.pat_variants(cond["pat"]))))
+                    else:
+                        out.append((cond, "false"))
         elif k == "closure":
             break
         child = p
